@@ -187,6 +187,10 @@ def m_len(interp, args, kw):
         return r
     if isinstance(v, SymMap):
         raise Unsupported("len of symbolic map")
+    from .values import NativeModel
+    if isinstance(v, NativeModel) and not hasattr(v, "__len__"):
+        # a contract stub that models only the methods the code used to call: "needs contract", not a TypeError of the real code
+        raise Unsupported("the contract's stub is incomplete for the code as it now is: %s has no len()" % type(v).__name__)
     return len(v)
 
 
